@@ -81,6 +81,31 @@ def post(ctx):
     ctx.ob('R-C08a', 'iv_event_post:empty-implies-wake', ok, loc=f.loc,
            detail='on every path on which the pending list was empty and the event was added, the owner is woken '
                   '(iv_task_register / already registered, iv_event_raw_post, method->event_send)', fn=f.q)
+    # the wake-up goes to the owner of the event
+    owner = None
+    for e in g.events():
+        if e['ev'] in ('store', 'decl'):
+            rhs = e.get('rhs') if e['ev'] == 'store' else e.get('init')
+            if rhs is not None and last_member(rhs) == ('iv_event', 'owner'):
+                owner = canon(e['lhs']) if e['ev'] == 'store' else e['name']
+    if owner is None:
+        raise AnalysisBroken('iv_event_post: owner variable not found')
+    hd = holding(g, user_call_kills=False)
+    for e in g.events():
+        if is_call(e, 'iv_event_raw_post'):
+            tgt = canon(e['args'][0])
+            ctx.ob('R-C08a', 'iv_event_post:raw-post-targets-owner', tgt == '&%s->events_kick' % owner, loc=e['loc'],
+                   detail='the raw event posted is the owner\'s kick (%s), not the poster\'s' % tgt, fn=f.q)
+        elif e['ev'] == 'call' and callback_kind(e) == ('method', 'event_send'):
+            ctx.ob('R-C08a', 'iv_event_post:send-targets-owner', canon(e['args'][0]) == owner, loc=e['loc'],
+                   detail='method->event_send(%s)' % canon(e['args'][0]), fn=f.q)
+        elif is_call(e, 'iv_task_register'):
+            tgt = canon(e['args'][0])
+            base = tgt[1:].split('->')[0] if tgt.startswith('&') else tgt
+            A = hd.get((e['_b'], e['_i']), frozenset())
+            same = base == owner or any(a[0] == '==' and {a[1], a[2]} == {owner, base} for a in A)
+            ctx.ob('R-C08a', 'iv_event_post:local-task-is-owners', same and tgt.endswith('->events_local'), loc=e['loc'],
+                   detail='the local task registered is the owner\'s (%s), on the edge poster == owner' % tgt, fn=f.q)
     # each transport arm wakes: count distinct wake kinds present
     kinds = set()
     for e in gf.events():
